@@ -62,6 +62,15 @@ func outOptions(t []string) []gtree.Option {
 	if t[7] != "-" {
 		opts = append(opts, gtree.WithFileExtensions(hexlist(t[7])))
 	}
+	// the ORDER in which options are given, and giving one twice with the same value, changes nothing:
+	// rotate / duplicate deterministically by the option set
+	if n := len(opts); n > 1 {
+		k := (len(t[3]) + len(t[7]) + n) % n
+		opts = append(opts[k:], opts[:k]...)
+		if (len(t[4])+n)%3 == 0 {
+			opts = append(opts, opts[0])
+		}
+	}
 	return opts
 }
 
